@@ -34,6 +34,13 @@ var prefixOfBinaryTables = [][2][]string{
 	{{"->", "+"}, {"-"}},
 }
 
+// operators spelled with non-ASCII runes (2 and 3 bytes), also mixed with ASCII ones and as prefix operators
+var unicodeTables = [][2][]string{
+	{{"\u2228", "\u2227", "\u2264", "+"}, {"\u00ac", "-"}},
+	{{"\u00b7", "+", "\u2260"}, {"-"}},
+	{{"<", "\u2248", "\u00b1"}, {"\u00b1", "\u00ac"}},
+}
+
 // the property quantifies over up to 16 binary operators: the whole pool plus four more spellings,
 // in three orders, with every subset of prefix operators
 var widePool = append(append([]string(nil), binPool...), "/", "%", "^", "|")
@@ -112,6 +119,14 @@ func eachTable(maxN int, fn func(idx int64, t *table) bool) {
 	for _, d := range prefixOfBinaryTables {
 		t := newTable(d[0], d[1], "")
 		t.class = "prefix-of-binary"
+		if !fn(idx, t) {
+			return
+		}
+		idx++
+	}
+	for _, d := range unicodeTables {
+		t := newTable(d[0], d[1], "")
+		t.class = "unicode"
 		if !fn(idx, t) {
 			return
 		}
@@ -342,7 +357,7 @@ func runOps(ctx *bex.Ctx) {
 		}
 		maxNodes := boundFor(bounds, len(t.Bin))
 		switch t.class {
-		case "dead-end", "prefix-of-binary":
+		case "dead-end", "prefix-of-binary", "unicode":
 			maxNodes = extraNodes
 		case "wide":
 			maxNodes = extraNodes - 1
@@ -384,7 +399,7 @@ func runOps(ctx *bex.Ctx) {
 		}
 		return true
 	})
-	ctx.SpaceDone(fmt.Sprintf("every ordered selection of n binary spellings from %v x every subset of prefix operators %v (also binary wherever the spelling is in the table, at every position incl. the last; such tables also with the builder calls in the orders Unary.Op and Op.Unary.Op) x text alias off/on (alias for '+', else for the first operator; on: only trees using the aliased operator, written 'plus'), every tree with <= k operator nodes (leaves a b 1 by position) for {n<=, k} in %v; + %d dead-end tables and %d tables whose prefix operator is a proper prefix of a binary spelling (<= %d nodes) + 3 orders of the 16-operator table %v x every prefix subset (<= %d nodes); renderings: minimal tight, minimal blank-separated (trees below the top level), every subset of redundant parenthesis pairs, full",
+	ctx.SpaceDone(fmt.Sprintf("every ordered selection of n binary spellings from %v x every subset of prefix operators %v (also binary wherever the spelling is in the table, at every position incl. the last; such tables also with the builder calls in the orders Unary.Op and Op.Unary.Op) x text alias off/on (alias for '+', else for the first operator; on: only trees using the aliased operator, written 'plus'), every tree with <= k operator nodes (leaves a b 1 by position) for {n<=, k} in %v; + %d dead-end tables, %d tables whose prefix operator is a proper prefix of a binary spelling and 3 tables with operators spelled in non-ASCII runes (<= %d nodes) + 3 orders of the 16-operator table %v x every prefix subset (<= %d nodes); renderings: minimal tight, minimal blank-separated (trees below the top level), every subset of redundant parenthesis pairs, full",
 		binPool, unPool, bounds, len(deadEndTables), len(prefixOfBinaryTables), extraNodes, widePool, extraNodes-1))
 }
 
@@ -398,7 +413,7 @@ func main() {
 			"identifiers a b m are known to the Identifiers function; numbers are parsed by strconv.Atoi; optimizer nil; comfort mode and comments off",
 			"keyword forms extend as far to the right as possible (gx renderer and reference agree on this; a keyword form written without parentheses directly after an operator is counted as unspecified)",
 		},
-		QuickBudget: 55e9, ThoroughBudget: 24 * 60e9,
+		QuickBudget: 90e9, ThoroughBudget: 30 * 60e9,
 		CrashIsViolation: true,
 		ClassifyCrash:    func(repro map[string]any) string { return "" },
 		Run: func(ctx *bex.Ctx) {
